@@ -36,7 +36,11 @@ func NativeMain(prop string, scs []NativeScenario) {
 		for i := 0; i < n && time.Now().Before(deadline); i++ {
 			hx.Reset()
 			done := make(chan struct{})
-			go func() { defer close(done); s.Body() }()
+			go func() {
+				defer close(done)
+				defer func() { _ = recover() }() // a panic is the controlled explorer's business, not this pass's
+				s.Body()
+			}()
 			select {
 			case <-done:
 			case <-time.After(3 * time.Second):
